@@ -79,9 +79,9 @@ CHECKS = {
    text="For every B,D,O within the bound the layer's output and the gradients of W, B and x are compared with the formula of the statement; row independence is checked bit-exactly; default (seeded stream) and custom/failing initializers are exercised; every history of up to 4-5 replacement/Forward events must use the tensors currently behind the pointers.",
    note="Known finding KF-1 for W/B gradients with batch>1. Bounds: dimensions <=3 (4)."),
  "C20": dict(engine="E3", ref="§5 C20",
-   technique="stateless model checking of the real code under a hand-written cooperative scheduler: exhaustive enumeration of all thread interleavings at hooked points up to a preemption bound (iterated 0,1,2[,3]) for every pair of thread bodies, oracle = agreement with the sequential run + unchanged shared state; plus a separate free-running pass under the Go race detector",
-   text="For every pair (and selected triples) of ten thread bodies that cover forward programs, layer/activation/loss evaluation, graph construction on shared tracked parameters, private build-and-back-propagate graphs sharing only untracked tensors and random constructors, every schedule up to the completed preemption bound is executed deterministically on the real library; every thread must obtain exactly its sequential result and no shared tensor's private state may change. Because cooperative hand-offs hide unsynchronised accesses from the race detector, the same bodies also run free on real goroutines in a -race build.",
-   note="Bounds: 2-3 goroutines, <=4 calls per body, 2x2 tensors, preemption bound 2 (3) where the schedule count fits the budget, at least 1. Scheduling points only at hooked sites (sequential consistency between them); the race pass covers accesses between points. Not reached: all numbers of goroutines."),
+   technique="stateless model checking of the real code under a hand-written cooperative scheduler: exhaustive enumeration of all thread interleavings at hooked points up to a preemption bound (iterated 0,1,2[,3]) for every pair of thread bodies (library sync/atomic operations and goroutines are intercepted through a build-time overlay shim: blocked threads are disabled, deadlock = no enabled thread), oracle = agreement with the sequential run + unchanged shared state + no deadlock; plus a separate free-running pass under the Go race detector",
+   text="For every pair (and selected triples) of 17 thread bodies that cover forward programs, layer/activation/loss evaluation, graph construction on shared tracked parameters, private build-and-back-propagate graphs sharing only untracked tensors and random constructors, every schedule up to the completed preemption bound is executed deterministically on the real library; every thread must obtain exactly its sequential result and no shared tensor's private state may change. Because cooperative hand-offs hide unsynchronised accesses from the race detector, the same bodies also run free on real goroutines in a -race build.",
+   note="Bounds: 2-3 goroutines, <=4 calls per body, 2x2 tensors, preemption bound 2 (3) where the schedule count fits the budget, at least 1. Scheduling points only at hooked sites (sequential consistency between them); the race pass covers accesses between points. Library locks/atomics/wait groups/goroutines become scheduling points through the overlay shim; channel operations are not intercepted (a scenario blocking in one is decided on free goroutines or reported as not explorable). Not reached: all numbers of goroutines."),
  "C10": dict(engine="E2", ref="§5 C10",
    technique="exhaustive enumeration of (operation configuration) write-set inspections through a private-state hook, and differential exploration of every single-element mutation of every caller-visible slice at every one of three moments of a call/op/back-propagate history, compared with the unmutated twin",
    text="Every public operation configuration of a small shape set and every component is run with a deep before/after inspection of all operands (elements as actually nested, dims, flags, gradient identity/value, edges) across the call, further use of the result and BackPropagate; and for every slice that crosses the API (passed in or handed out) every element is overwritten by every alternative value at each of three later moments, and all subsequent observations must equal those of the untouched twin.",
